@@ -21,7 +21,7 @@ THEOREMS = [
     'C16.dayUp_spec', 'C16.dayDown_spec', 'C16.dayAdjust_spec',
     'C16.datetimeNewCore_is_ordinal_arithmetic', 'C16.datetimeNew_is_ordinal_arithmetic',
     'C16.getters_roundtrip', 'C16.add_sub_ms', 'C16.add_none_iff', 'C16.add_add',
-    'C16.iso_roundtrip_partial', 'C16.iso_offset_seconds_lost', 'C16.iso_reject', 'C16.iso_reject_fields',
+    'C16.iso_roundtrip_partial', 'C16.iso_roundtrip_format_partial', 'C16.iso_offset_seconds_lost', 'C16.iso_reject', 'C16.iso_reject_fields',
     'C16.round_ms_exact_partial',
 ]
 ASSUMPTIONS = [
@@ -511,7 +511,9 @@ def stream_iso(ctx, n_rt, n_text, n_arith, zones=None):
         valid = iso_text_cases(rng, n_text)
         texts = [rec['text'] for rec in corpus('dt-iso-text')] + MALFORMED_FIXED + valid + [mutate(rng, rng.choice(valid)) for _ in range(n_text)]
         ar_cases = arith_cases(rng, n_arith)
-        reqs = ([{'kind': 'rt', 'args': a} for a in rt_cases] + [{'kind': 'parse', 'text': t} for t in texts]
+        # a third of the round trips start from a datetime carrying extra microseconds (what datetimeNow() returns): ISO text is cut to the millisecond
+        rt_us = [rng.choice([1, 499, 500, 501, 999, rng.randint(1, 999)]) if rng.random() < 0.33 else 0 for _ in rt_cases]
+        reqs = ([{'kind': 'rt', 'args': a, 'us': us} for a, us in zip(rt_cases, rt_us)] + [{'kind': 'parse', 'text': t} for t in texts]
                 + [{'kind': 'arith', 'args': a, 'n': n, 'as_int': i} for a, n, i in ar_cases])
         resps = run_worker(zone, reqs)
         bad = [r for r in resps if 'worker_error' in r or 'bad' in r]
@@ -523,18 +525,20 @@ def stream_iso(ctx, n_rt, n_text, n_arith, zones=None):
 
         # ---- round trips ----
         mreqs = []
-        for a, r in zip(rt_cases, rt_resps):
+        for a, us, r in zip(rt_cases, rt_us, rt_resps):
             d = r.get('d')
             if d is None:
                 continue
-            mreqs.append({'op': 'isoFormat', 'dt': d, 'off': r['zi_off'] if r.get('zi_off') is not None else 0})
+            mreqs.append({'op': 'isoFormat', 'dt': d, 'off': r['zi_off'] if r.get('zi_off') is not None else 0, 'us': us})
             ref = r.get('ref') or {}
             mreqs.append({'op': 'isoParse', 'text': r['text'] if isinstance(r.get('text'), str) else '', 'off': ref.get('zi') or 0})
             mreqs.append({'op': 'isoParse', 'text': r['datetext'] if isinstance(r.get('datetext'), str) else '', 'off': 0})
         mresps = iter(ctx.driver.batch(mreqs))
-        for a, r in zip(rt_cases, rt_resps):
+        for a, us, r in zip(rt_cases, rt_us, rt_resps):
             d = r.get('d')
             key = {'zone': zone, 'args': a}
+            if us:
+                key['us'] = us
             if d != oracle_new(a):
                 ctx.witness('ordinal-arithmetic', {'args': a, 'spelling': 'float', 'zone': zone}, oracle_new(a), d)
             if d is None:
@@ -545,7 +549,7 @@ def stream_iso(ctx, n_rt, n_text, n_arith, zones=None):
             agree = r.get('zi_off') == r.get('os_off') and r.get('zi_exists') == r.get('libc_exists')
             off = r.get('zi_off')
             whole = off is not None and off % 60 == 0
-            tags = [zone, 'exists' if exists else 'gap', 'whole-minute' if whole else 'seconds-offset'] + (['fold'] if r.get('fold') else [])
+            tags = [zone, 'exists' if exists else 'gap', 'whole-minute' if whole else 'seconds-offset'] + (['fold'] if r.get('fold') else []) + (['sub-ms'] if us else [])
             if not agree:
                 tags.append('zoneinfo-vs-libc-differ')
             st.case(key, nontrivial=exists and whole and (off != 0 or d[6] != 0), tags=tags)
@@ -602,13 +606,13 @@ def streams(ctx):
 
 def search(ctx):
     """Directed search with a larger budget: all three oracles, fresh seeds."""
-    stream_new(ctx, ctx.scale(40000, 400000), ctx.scale(4000, 40000), seed_name='search-new')
+    stream_new(ctx, ctx.scale(40000, 150000), ctx.scale(4000, 15000), seed_name='search-new')
     if ctx.witnesses:
         return
-    stream_arith(ctx, ctx.scale(20000, 200000), seed_name='search-arith')
+    stream_arith(ctx, ctx.scale(20000, 80000), seed_name='search-arith')
     if ctx.witnesses:
         return
-    stream_iso(ctx, ctx.scale(3000, 30000), ctx.scale(1500, 10000), ctx.scale(300, 3000))
+    stream_iso(ctx, ctx.scale(3000, 8000), ctx.scale(1500, 3000), ctx.scale(300, 1000))
 
 
 def replay(witness):
@@ -631,7 +635,7 @@ def replay(witness):
         want = case[1] if want_sum is not None else None
         return got.get('sum') != want_sum or got.get('lr') != want or got.get('rl') != want
     if oracle in ('iso-roundtrip', 'iso-date-roundtrip', 'iso-format-shape'):
-        r = run_worker(zone, [{'kind': 'rt', 'args': inp['args']}])[0]
+        r = run_worker(zone, [{'kind': 'rt', 'args': inp['args'], 'us': inp.get('us', 0)}])[0]
         d = r.get('d')
         if d is None:
             return True
